@@ -61,7 +61,9 @@ func RunFamily(c *core.Ctx, family string, bound, shardsPerProg, maxExecsPerJob 
 	capped := false
 	outcomesPerProg := map[int]map[string]bool{}
 	single := 0
-	core.RunJobs("sched", params, 20*time.Minute, func(idx int, res json.RawMessage, crash string) {
+	done := 0
+	core.RunJobsUntil("sched", params, 20*time.Minute, func(idx int, res json.RawMessage, crash string) {
+		done++
 		jp := params[idx].(jobParams)
 		if crash != "" {
 			c.Violate(fmt.Sprintf("%s/%s/worker-crash", c.ID, progs[jp.Prog].Name), "exploration worker failed: "+crash, jp)
@@ -86,7 +88,11 @@ func RunFamily(c *core.Ctx, family string, bound, shardsPerProg, maxExecsPerJob 
 			c.Violate(fmt.Sprintf("%s/%s", c.ID, v.Key), fmt.Sprintf("program %s: %s | history: %s", r.Name, v.What, v.Hist),
 				map[string]interface{}{"family": family, "tier": c.Tier, "prog": r.Prog, "program": r.Name, "choices": v.Choices, "history": v.Hist})
 		}
-	})
+	}, c.TimeUp)
+	if done < len(params) {
+		capped = true
+		c.Cov["time_budget"] = fmt.Sprintf("time budget reached: %d of %d (program, shard) jobs explored completely, the others not started", done, len(params))
+	}
 	distinct := 0
 	var names []string
 	for i, p := range progs {
@@ -129,6 +135,9 @@ func RunFamily(c *core.Ctx, family string, bound, shardsPerProg, maxExecsPerJob 
 	if capped {
 		c.Cov["exhaustive"] = false
 		c.Cov["capped"] = fmt.Sprintf("per-job execution cap %d hit in at least one job", maxExecsPerJob)
+		if tb, ok := c.Cov["time_budget"]; ok {
+			c.Cov["capped"] = tb
+		}
 	} else if _, ok := c.Cov["exhaustive"]; !ok {
 		c.Cov["exhaustive"] = true
 	}
